@@ -265,6 +265,26 @@ def mutants(text, rng, k):
     return out
 
 
+DIAG_SAFE = set(chr(c) for c in range(32, 127)) | set("\n\r\t\u00e9\u4e16\U0001F600")
+
+
+def diag_events(lines):
+    """one event per error of an `err' outcome whose text stays within the alphabet whose display
+    widths Diagnostics.tla models"""
+    out = []
+    for ln in lines:
+        e = json.loads(ln)
+        r = e["res"]
+        if r.get("class") != "err" or not set(e["s"]) <= DIAG_SAFE:
+            continue
+        for k, er in enumerate(r.get("errors", [])):
+            if "rd" not in er:
+                continue
+            out.append(json.dumps(dict(ev="diag", id=e["id"], entry=e["entry"], bytes=list(e["s"].encode()), spans=er["spans"],
+                                       dup=er["dup"], msg=[ord(c) for c in er["kind"]], rd=er["rd"])) + "\n")
+    return out
+
+
 def c12(pid, tier, replay):
     from . import genlex, p_hdr, p_lexparse, p_yparse
     res = core.Result(pid, "model_checking", tier)
@@ -354,6 +374,18 @@ def c12(pid, tier, replay):
         if not any(k.endswith(":err") for k in classes) or not any(k.endswith(":ok") for k in classes):
             raise core.ToolError("vacuity: no erroneous / no accepted inputs: %s" % classes)
     run_parts(res, "TraceTotal", lines, {}, 1 if replay else (12 if thorough else 6), byid, seed)
+    # the rendering of every reported error against Diagnostics.tla (texts over the alphabet whose
+    # display widths the specification models)
+    dl = diag_events(lines)
+    res.notes["error_renderings_predicted"] = len(dl)
+    if dl:
+        if not replay:
+            e = json.loads(dl[0])
+            e["rd"] = e["rd"][:-1]
+            v = validate(res, "TraceDiag", 9002, [json.dumps(e) + "\n"], {})
+            if not v["devs"]:
+                raise core.ToolError("binding self-test failed (TraceDiag)")
+        run_parts(res, "TraceDiag", dl, {}, 1 if replay else (8 if thorough else 4), byid, seed)
     # the section parser against its transcription: exact prediction of every outcome
     hl = p_hdr.events(items, lines)
     res.notes["header_outcomes_predicted"] = len(hl)
